@@ -51,6 +51,46 @@ theorem xattrs_preserved (c : Cfg) (src d : FMeta) (fx : Nat → Nat) (h : c.noP
     cases c.ownership <;> cases c.noTimestamps <;> cases c.fsync <;> simp [h, applyFStep]
   rw [key, xaGet_foldl, hk]
 
+/-- `--no-perms` also leaves the destination's extended attributes alone (they travel with the permissions). -/
+theorem no_perms_keeps_xattrs (c : Cfg) (src d : FMeta) (fx : Nat → Nat) (h : c.noPerms = true) :
+    (finalise c src fx d).xattrs = d.xattrs := by
+  unfold finalise finaliseSteps
+  cases c.ownership <;> cases c.noTimestamps <;> cases c.fsync <;> simp [h, applyFStep]
+
+/-- Without `--ownership` owner and group are not transferred, and the mode never passes through `chown`. -/
+theorem no_ownership_keeps_owner (c : Cfg) (src d : FMeta) (fx : Nat → Nat) (h : c.ownership = false) :
+    (finalise c src fx d).uid = d.uid ∧ (finalise c src fx d).gid = d.gid ∧
+    (finalise c src fx d).mode = (if c.noPerms then d.mode else src.mode) := by
+  unfold finalise finaliseSteps
+  cases c.noPerms <;> cases c.noTimestamps <;> cases c.fsync <;> simp [h, applyFStep]
+
+/-- The exact attribute map of the destination: the source's value where the source has the key (last
+listing wins), otherwise whatever the destination had — nothing is removed, nothing else is added. -/
+theorem xattrs_exact (c : Cfg) (src d : FMeta) (fx : Nat → Nat) (h : c.noPerms = false) (k : Name) :
+    xaGet (finalise c src fx d).xattrs k =
+      (xaGet src.xattrs.reverse k).or (xaGet d.xattrs k) := by
+  have key : (finalise c src fx d).xattrs = src.xattrs.foldl (fun acc kv => xaSet acc kv.1 kv.2) d.xattrs := by
+    unfold finalise finaliseSteps
+    cases c.ownership <;> cases c.noTimestamps <;> cases c.fsync <;> simp [h, applyFStep]
+  rw [key, xaGet_foldl]
+  cases xaGet src.xattrs.reverse k <;> rfl
+
+/-- `--fsync` changes no metadata. -/
+theorem fsync_changes_nothing (c : Cfg) (src d : FMeta) (fx : Nat → Nat) :
+    finalise { c with fsync := true } src fx d = finalise { c with fsync := false } src fx d := by
+  unfold finalise finaliseSteps
+  cases c.ownership <;> cases c.noPerms <;> cases c.noTimestamps <;> simp [applyFStep]
+
+/-- The order that makes `mode_preserved` true: whenever both are issued, `chown` comes before `chmod`
+(and before the attribute writes), and `fsync`, when issued, is last. -/
+theorem chown_first_fsync_last (c : Cfg) :
+    (c.ownership = true → (finaliseSteps c).head? = some .chown) ∧
+    (c.ownership = false → FStep.chown ∉ finaliseSteps c) ∧
+    (c.fsync = true → (finaliseSteps c).getLast? = some .fsync) ∧
+    (finaliseSteps c).Nodup := by
+  unfold finaliseSteps
+  cases c.ownership <;> cases c.noPerms <;> cases c.noTimestamps <;> cases c.fsync <;> simp
+
 /-- The defect repaired by the `fix:` commit "apply ownership before permissions": with the old order
 (permissions, timestamps, ownership) Linux' chown drops the set-id bits of mode 06755. -/
 theorem old_order_loses_setid :
